@@ -25,7 +25,7 @@ ANCHORS = ["runlengtharray.py::RunLength2dArray.from_array", "runlengtharray.py:
 OPS = ["decode", "meta", "rows", "elem", "col_int", "col_slice", "red_row", "red_col", "ravel", "concat", "npfunc", "unary", "scalar", "colvec", "intervals", "sel_inplace"]
 FLOOR_TAGS = ["op:" + o for o in OPS] + ["variant:2d", "variant:ragged", "variant:ragged_from_matrix", "rows:int", "rows:slice", "rows:list", "rows:mask",
                                          "cs:pos", "cs:neg", "side:L", "side:R", "red:argmax", "red:mean", "col:sum", "col:mean", "col:col_counts", "col:any", "j:neg",
-                                         "kind:b", "kind:i", "kind:u", "kind:f", "order:F", "order:T", "source:lazyrows", "source:lazychain", "via:intervals", "via:plus1", "concat:mixed-dtypes", "scalar:0-d-array", "scalar:numpy-typed", "axis:-2"]
+                                         "kind:b", "kind:i", "kind:u", "kind:f", "order:F", "order:T", "source:lazyrows", "source:lazychain", "via:intervals", "via:plus1", "concat:mixed-dtypes", "concat:zero-row-operands", "scalar:0-d-array", "scalar:numpy-typed", "axis:-2"]
 FLOOR_MONITORS = ["c17:compare", "inv:rla"]
 FP_STRICT = True       # a floating-point event inside the library that the dense computation does not have is a violation (shard.FpMonitor)
 N_RANDOM = {"quick": 20000, "thorough": 300000}
@@ -60,7 +60,7 @@ def build(case):
     lib = CTX.lib
     dt = np.dtype(case["dtype"])
     rows = [np.array(r).astype(dt) for r in case["rows"]]
-    if case.get("swap") and dt.kind in "iu" and dt.itemsize > 1:
+    if case.get("bswap") and dt.kind in "iu" and dt.itemsize > 1:
         rows = [r.astype(dt.newbyteorder()) for r in rows]        # non-native byte order
         dt = dt.newbyteorder()
     v = case["variant"]
@@ -261,7 +261,16 @@ def run(case):
             what = "np.concatenate([other, rl]) with rows %s (%s)" % (short(case["rows2"], 100), dt2)
         else:
             pass
-        if not case.get("swap"):
+        if case.get("zero_parts"):
+            # operands that are selections without any row (an empty slice, an empty list, an all-False mask) next to / instead of real ones
+            tags.append("concat:zero-row-operands")
+            z = [rlx[n:], rlx[[]], rlx[np.zeros(n, dtype=bool)]]
+            forms = {"only": [z[0], z[1]], "single": [z[2]], "first": [z[0], rlx, other], "last": [rlx, other, z[1], z[2]]}[case["zero_parts"]]
+            keep = case["zero_parts"] in ("first", "last")
+            o = ("2d", ([r.astype(rdt).tolist() for r in rows] + [r.astype(rdt).tolist() for r in rows2]) if keep else [])
+            a = attempt(lambda: (lambda r_: to_rows(r_) if len(r_) else ("2d", []))(np.concatenate(forms)))
+            what = "np.concatenate with zero-row operands (%s)" % case["zero_parts"]
+        elif not case.get("swap"):
             o = ("2d", [r.astype(rdt).tolist() for r in rows] + [r.astype(rdt).tolist() for r in rows2])
             a = attempt(lambda: to_rows(np.concatenate([rlx, other])))
             what = "np.concatenate with rows %s (%s)" % (short(case["rows2"], 100), dt2)
@@ -452,6 +461,8 @@ def gen_case(rng, tier, op=None, variant=None, dtype=None):
                 c["swap"] = rng.random() < 0.5
             else:
                 c["rows2"] = gen_rows(rng, dtype, False, tier)
+                if rng.random() < 0.25:
+                    c["zero_parts"] = rng.choice(["only", "single", "first", "last"])
             return c
         if op == "npfunc":
             c["name"], c["axis"] = rng.choice([("sum", -1), ("sum", 0), ("mean", -1), ("mean", 0), ("max", -1)])
@@ -525,7 +536,7 @@ def directed():
 def _with_swap(rng, c):
     """one case in eight with integer elements gets them in non-native byte order"""
     if isinstance(c, dict) and "dtype" in c and np.dtype(c["dtype"]).kind in "iu" and rng.random() < 0.12:
-        c["swap"] = True
+        c["bswap"] = True
     return c
 
 
